@@ -76,6 +76,19 @@ Theorem C09_fallback_heartbeat : forall st str0 ops ms, valid_cfg (cfg st) -> ev
 Proof. exact heartbeat_fallback. Qed.
 Print Assumptions C09_fallback_heartbeat.
 
+(* the readiness layer over histories: after ANY history, a failed heartbeat followed by ANY stretch of rounds in
+   which the server keeps failing — failed heartbeats, time passing, sync rounds whose server info lists the same
+   leader, lists none or fails (they do not touch the readiness: [EElapse 0] here) — lasting 5 s or more, and one more
+   failed heartbeat: the server is not ready and the LOCAL limiter with the local limit is in force, although the
+   leader stayed listed *)
+Theorem C09_failed_heartbeats_fall_back : forall st str0 ops mid, valid_cfg (cfg st) -> evs_ok ops ->
+  Forall failing_round mid -> 5000 <= elapsed mid ->
+  let s := reach st str0 (ops ++ [EHb false] ++ mid ++ [EHb false]) in
+  is_ready st s = false /\
+  (present s = true -> o_sel (observe true st s) = SelLocal /\ o_lim (observe true st s) = Some (local_spec (scfg s))).
+Proof. exact failed_heartbeats_fall_back. Qed.
+Print Assumptions C09_failed_heartbeats_fall_back.
+
 (* the hysteresis boundary from below: a ready server whose heartbeats fail for less than 5 s stays ready;
    a good heartbeat or a leader change of the shard makes the server ready at once *)
 Theorem C09_hysteresis : forall st str0 ops ms, valid_cfg (cfg st) -> evs_ok ops -> 0 <= ms < 5000 ->
@@ -288,4 +301,20 @@ Proof.
   split; [vm_compute; reflexivity|]. split; [vm_compute; reflexivity|].
   split; [repeat constructor|]. split; [reflexivity|].
   vm_compute. eexists. eexists. repeat split.
+Qed.
+
+(* the leader stays listed by the 2 s info sync (EElapse 0) while its heartbeats fail: quota 12 is in force until the
+   failures have lasted 5 s, then the local limit 5; a successful heartbeat brings the quota back *)
+Example C09_failed_heartbeats_nonvacuous :
+  let ops := [EHb true; q_mi 12; EHb false; EElapse 2000; EElapse 0; EHb false; EElapse 2000; EElapse 0; EHb false;
+              EElapse 2000; EElapse 0; EHb false; EHb true] in
+  map (fun p => (o_ready (snd p), o_lim (snd p))) (trace true true true ex_mi (init (cfg ex_mi) SAlloc) ops)
+  = [(true, Some (LMI 5)); (true, Some (LMI 12)); (true, Some (LMI 12)); (true, Some (LMI 12)); (true, Some (LMI 12));
+     (true, Some (LMI 12)); (true, Some (LMI 12)); (true, Some (LMI 12)); (true, Some (LMI 12)); (true, Some (LMI 12));
+     (true, Some (LMI 12)); (false, Some (LMI 5)); (true, Some (LMI 12))]
+  /\ case_ok ex_mi SAlloc (observe true ex_mi (init (cfg ex_mi) SAlloc)) (trace true true true ex_mi (init (cfg ex_mi) SAlloc) ops) = all_true
+  /\ Forall failing_round [EElapse 2000; EElapse 0; EHb false; EElapse 2000; EElapse 0; EHb false; EElapse 2000; EElapse 0]
+  /\ elapsed [EElapse 2000; EElapse 0; EHb false; EElapse 2000; EElapse 0; EHb false; EElapse 2000; EElapse 0] = 6000.
+Proof.
+  split; [vm_compute; reflexivity|]. split; [vm_compute; reflexivity|]. split; [repeat constructor|reflexivity].
 Qed.
